@@ -218,7 +218,7 @@ _B = ('0 <= link <= 2 and 0 <= d1 < %d and 0 <= d2 <= 1 and 0 <= f_root < %d and
       % (_ND, _NF, _NF, _NF, _NF, len(PATTERNS), len(PATHSETS)))
 _Q = (_B + ' and (link == 0 or (paths == 0 and pat == 0 and not usec and f1a <= 1)) and f_root == 2 and d2 == 0 and f2 == 1 and f1b <= 3 and init2 and (paths == 0 or f1a <= 3) and (paths <= 3) '
       'and (pat == 0 or (d1 <= 2 and f1a <= 3 and paths == 0)) and (not usec or (d1 <= 1 and f1a >= 4 and paths == 0 and pat == 0))')
-_T = _B + ' and f_root <= 5 and f2 <= 5'
+_T = _B + ' and (f_root == 2 or f_root == 5) and f2 <= 1 and f1b <= 5 and init2 and d2 == 0 and ((pat != 0) + (paths != 0) + usec + (link != 0) <= 1)'
 _PS = [('d1', 'int'), ('f1a', 'int'), ('f1b', 'int'), ('init1', 'bool'), ('rev', 'bool'), ('mp', 'int'), ('pkg', 'bool'), ('failkind', 'int'), ('failwhich', 'int')]
 _CS = ', '.join(n for n, _ in _PS)
 _BS = '0 <= d1 < %d and 0 <= f1a < %d and 0 <= f1b < %d and 0 <= mp < %d and 0 <= failkind < 4 and 0 <= failwhich <= 2' % (_ND, _NF, _NF, len(MODPAT))
@@ -258,7 +258,7 @@ SPEC = {
          'timeout': {'quick': 300, 'thorough': 1700},
          'fidelity': [_v(), _v(d1=2, pat=2, f1a=3, f1b=2, rev=True, paths=4), _v(usec=True, f1a=5, f1b=9, init1=False, f2=11), _v(d1=3, paths=2), _v(pat=1, f1b=8, paths=3), _v(d1=6, link=1), _v(d1=1, link=2)]},
         {'name': 'suites', 'fn': 'suites', 'params': _PS, 'call': _CS,
-         'bounds': {'quick': _QS, 'thorough': _BS},
+         'bounds': {'quick': _QS, 'thorough': _BS + ' and d1 <= 4 and f1a <= 5 and f1b <= 3'},
          'slices': {'quick': ['mp == %d and %s' % (m, p) for m in range(len(MODPAT)) for p in ('pkg', 'not pkg')],
                     'thorough': ['mp == %d and %s and d1 == %d' % (m, p, d) for m in range(len(MODPAT)) for p in ('pkg', 'not pkg') for d in range(_ND)]},
          'reach': 'suites_reach', 'reach_bounds': {'quick': _BS + ' and d1 == 0 and mp == 0 and failkind == 0 and init1',
